@@ -22,7 +22,7 @@ MAIN = {
  "C13": "C13_step_sorted, C13_history, C13_at_offset, C13_at, C13_*_get (dict semantics); scopes: C13_section_at (+_sound, _inside, _nodup, _keeps), C13_scope_at_*, C13_scope_at_union, C13_scope_at_sandwich, C13_section_at_omits_example",
  "C14": "C14_untouched(_generations, _history, _state), C14_current(_full, _history), C14_retype, C14_raw_monotone, C14_touched_generation, C14_read_generations, C14_rewritten_iff (extent of K4), C14_unknown_top_head, C14_lazy_trichotomy, C14_unknown_counterexample",
  "C15": "C15_complete, C15_sound, C15_iff",
- "C16": "C16_*_content (every set and list operation), C16_extend_content_dups, C16_builtin_errors_pure, C16_error_kinds, C16_setItem_outside_iff, C16_outside_iff_K1, C16_never_raises, C16_setters_never_raise, C16_history_skips_only_builtin, C16_delSlice_content, C16_setSlice_content_*; C13_* for the mapping",
+ "C16": "C16_*_content (every set and list operation), C16_extend_content_dups, C16_builtin_errors_pure, C16_error_kinds, C16_setItem_outside_iff, C16_outside_iff_K1, C16_never_raises, C16_setters_never_raise, C16_history_skips_only_builtin, C16_delSlice_content, C16_setSlice_content_*; return values and non-mutating operations: C16_stepR_state, C16_listPop_returns, C16_setPop_returns, C16_inplace_returns_same, C16_nm*_mem / _nodup / _iff, C16_nmIndex_*, C16_nmSlice_spec, C16_nm_frame; C13_* for the mapping",
  "C17": "C17_header_magic/_version/_short, C17_version_field, C17_accepts_saved, C17_accepted_wf_partial, C17_accepted_refs, C17_accepted_enums, C17_accepted_bytes_inv; C17_load_coherent (every message, duplicated UUIDs included), C17_load_all_attached, C17_load_triple_uuid_*",
  "C18": "C18_iff, C18_symm, C18_refl, C18_refl_iff, C18_order, C18_perm_*, C18_field_* (35), C18_aux_values_ignored; nodes: C18_node_symbol/_expr/_interval/_section/_module (+_symm, _refl, _of_ir)",
  "C19": "C19_ctor_rejects, C19_ctor_ok, C19_setInit_*, C19_setSize_inv, C19_step_inv (incl. whole-contents assignment), C19_history, C19_saveload_iff, C19_contents, C19_contains_*",
